@@ -229,7 +229,7 @@ func main() {
 				ns[j] = cur
 			}
 			op := "rr " + hlib.Ints32(ns)
-			run.Emit(op, doRR(ns))
+			run.Emit(op, run.Safe(op, func() string { return doRR(ns) }))
 			run.Count("rr")
 			run.Nontrivial(op)
 		default:
@@ -285,7 +285,7 @@ func emitHash(ra bool, h uint32, nn int32, how int) {
 		b = "1"
 	}
 	op := fmt.Sprintf("hash %s %d %d", b, h, nn)
-	run.Emit(op, doHash(ra, h, nn, how))
+	run.Emit(op, run.Safe(op, func() string { return doHash(ra, h, nn, how) }))
 	run.Count("hash")
 	if h >= 0x80000000 {
 		run.Count("hash-negative")
@@ -299,7 +299,7 @@ func emitPM(rc bool, as, ws, ch string) {
 		b = "1"
 	}
 	op := fmt.Sprintf("pm %s %s %s %s", b, as, ws, ch)
-	out := doPM(rc, as, ws, ch)
+	out := run.Safe(op, func() string { return doPM(rc, as, ws, ch) })
 	run.Emit(op, out)
 	run.Count("pm-" + strings.Fields(out)[0])
 	if strings.HasPrefix(out, "sent") {
